@@ -318,6 +318,19 @@ def step (cur : Option St) (pre post : List String) : Option St × Verdict :=
         let m := jail s a
         (some i, verdict (first [excessMon s i]) (diffState m i true))
       | _, _ => (cur, .bad "jail args")
+    | ["keeper", "unjail", a], _ :: st =>
+      match pState st, Bytes.parse a with
+      | some i, some a =>
+        let m := unjail s a
+        (some i, verdict (first [excessMon s i]) (diffState m i true))
+      | _, _ => (cur, .bad "unjail args")
+    | ["keeper", "requeue", a], _ :: st =>
+      -- JailApplication then UnjailApplication: on an unstaking record its queue slot gains two more entries
+      match pState st, Bytes.parse a with
+      | some i, some a =>
+        let m := unjail (jail s a) a
+        (some i, verdict (first [excessMon s i]) (diffState m i true))
+      | _, _ => (cur, .bad "requeue args")
     | ["keeper", "force", a], res :: st =>
       match pState st, Bytes.parse a with
       | some i, some a =>
